@@ -48,6 +48,9 @@ MULTI7 = (
     ("chain", ("D1",), True),
     ("chain", ("DS",), True),
     ("chain", ("L2",)),
+    ("proj", ()),
+    ("chain", ("I1",)),
+    ("chain", ("IS",), True),
     ("join", ("K",), None, False),
     ("join", ("K",), spaces.P_D_GT_A, True),
 )
